@@ -25,8 +25,19 @@ Bytes == IF Alpha = "all" THEN 0..255 ELSE IF Alpha = "boundary" THEN Boundary E
 (* enumerating 256^n strings                                               *)
 OddCount == Cardinality({ p \in 1..Len(s) : s[p] \notin Reduced })
 
-Init == s = <<>>
-Next == /\ Len(s) < MaxLen
+(* Alpha = "fill1": every length 1..9, every position, EVERY byte value there,   *)
+(* the other positions filled with one letter / capital / digit -- a production  *)
+(* that mis-classifies or mis-folds one byte value at one position of a LONG     *)
+(* subtag.  Alpha = "fill2": two positions ranging over all alphanumerics.       *)
+Fill == {97, 90, 53}
+Alnum62 == (48..57) \cup (65..90) \cup (97..122)
+Fill1 == { [q \in 1..L |-> IF q = p THEN b ELSE f] : L \in 1..9, p \in 1..9, b \in 0..255, f \in Fill }
+Fill2 == { [q \in 1..L |-> IF q = p1 THEN b1 ELSE IF q = p2 THEN b2 ELSE f] :
+             L \in 2..8, p1 \in 1..8, p2 \in 1..8, b1 \in Alnum62, b2 \in {65, 77, 90, 97, 109, 122, 48, 57}, f \in {97, 90} }
+
+Init == IF Alpha = "fill1" THEN s \in Fill1 ELSE IF Alpha = "fill2" THEN s \in Fill2 ELSE s = <<>>
+Next == /\ Alpha \notin {"fill1", "fill2"}
+        /\ Len(s) < MaxLen
         /\ IF Alpha = "oneodd"
              THEN \E b \in (IF OddCount = 0 THEN 0..255 ELSE Reduced) : s' = Append(s, b)
              ELSE /\ Len(s) < FullLen \/ AllAlnum(s)
